@@ -20,13 +20,20 @@ Theorem C07_close_session_ends : forall h sid, WF h ->
 Proof. exact close_session_ends. Qed.
 Theorem C07_no_empty_room : forall h k r, WF h -> room_of h k = Some r -> r.(r_members) <> [].
 Proof. exact no_empty_room. Qed.
-(* C07_limit_exact_partial: the bound |counted b| <= limit b and "counted = registered non-internal
-   sessions" are checked on every implementation state by P_C07 (limits_ok_from) and compared with
-   the model step by step; the invariant over all histories is not proved yet.  Bus subscriptions
-   are not part of the model's state (the bus is the harness's): registrations_exact checks them on
-   the implementation. *)
+(* The sessions counted against a backend's limit are live (capacity freed by ended sessions is
+   available again) and never more than the limit, in every reachable state. *)
+Theorem C07_limit_never_exceeded : forall h b l, WF h -> aget h.(h_counted) b = Some l ->
+  N.of_nat (length l) <= limit_of h b /\ forall sid, In sid l -> live h sid.
+Proof. exact limit_never_exceeded. Qed.
+(* C07_limit_exact_partial: that every registered non-internal session of a limited backend is on that
+   list (so the bound is a bound on the sessions, not only on the list) is checked on every implementation
+   state by P_C07 (limits_ok_from: counted flag of every client session) and by the comparison with the
+   model; racing registrations are atomic steps of the model (Backend.AddSession holds a lock).  Bus
+   subscriptions are not part of the model's state (the bus is the harness's): registrations_exact checks
+   them on the implementation. *)
 
 Print Assumptions C07_invariant_every_history.
 Print Assumptions C07_no_residue.
 Print Assumptions C07_close_session_ends.
 Print Assumptions C07_no_empty_room.
+Print Assumptions C07_limit_never_exceeded.
